@@ -147,7 +147,7 @@ def block(rng: random.Random, depth=0) -> list[str]:
         return ["#" * rng.randint(1, 6) + " " + t + _L(rng).choice(["", "", " #", " ##"])]
     if r < 0.45:
         fence = rng.choice(["```", "```", "~~~", "````", "~~~~"])
-        info = rng.choice(["", "py", "python title=\"x\"", "c++", "a\\*b"])
+        info = rng.choice(["", "py", "python title=\"x\"", "c++", "a\\*b", "a\\\\|b x\\\\*y", "C:\\dir"])
         if fence[0] == "`" and "`" in info:
             info = ""
         body = [rng.choice(["code   here", "", "  indented", "```", "~~~", "> not quote", "- not list", "    deep", "x = \"q\"...", "\ttab", "`` ` ``",
